@@ -1,5 +1,5 @@
 (* GENERATED on every run by harness/C07.py translate() with translate/pyexpr2coq.py from
-   /tmp/mt-19830-19089/psiaudio/util.py and /tmp/mt-19830-19089/psiaudio/calibration.py - do not edit.
+   /repo/psiaudio/util.py and /repo/psiaudio/calibration.py - do not edit.
    sens = self.get_sens(frequency); interp = self._interp(frequency); constructors: the `sensitivity` they pass on. *)
 From Coq Require Import Reals.
 From PV Require Import Calib.RBase.
